@@ -225,6 +225,9 @@ def run_exprs(unit):
                 proto = parse_file(path)
                 consts = dict((n, c.value) for n, c in proto.constants(recursive=False))
                 outs = {lang: "\n".join(render_strings(proto, lang).values()) for lang in ("c", "go", "py")}
+                # optimization mode emits the same constants (the schema has no extensible type)
+                outs["go-O"] = "\n".join(render_strings(proto, "go", optimization_mode=True).values())
+                outs["c-O"] = "\n".join(render_strings(proto, "c", optimization_mode=True).values())
         except Exception as e:
             _viol(out, "pipeline", type(e).__name__, repo_site(e), "constant file failed to parse/render: %s" % str(e)[:300], exc_summary(e), files)
             return out.result()
@@ -257,6 +260,12 @@ def run_exprs(unit):
             m = re.search(r"^#define K%d (-?\d+)$" % k, outs["c"], re.M)
             if not m or int(m.group(1)) != gv:
                 _viol(out, "emit-c", "wrong_literal", "c:constant", "K%d = %s (= %d): C macro %r" % (k, e, gv, m.group(0) if m else None), "", files)
+            m = re.search(r"^const K%d(?: \w+)? = (-?\d+)$" % k, outs["go-O"], re.M)
+            if not m or int(m.group(1)) != gv:
+                _viol(out, "emit-go", "wrong_literal_optimization_mode", "go:constant", "K%d = %s (= %d): go -O literal %r" % (k, e, gv, m.group(0) if m else None), "", files)
+            m = re.search(r"^#define K%d (-?\d+)$" % k, outs["c-O"], re.M)
+            if not m or int(m.group(1)) != gv:
+                _viol(out, "emit-c", "wrong_literal_optimization_mode", "c:constant", "K%d = %s (= %d): C -O macro %r" % (k, e, gv, m.group(0) if m else None), "", files)
         for name, kind, want in (("YES0", "bool", True), ("NO0", "bool", False), ("YES1", "bool", True), ("NO1", "bool", False), ("YES2", "bool", True),
                                  ("ONE_AGAIN", "int", 1), ("ZERO_AGAIN", "int", 0), ("ONE_REF", "int", 1)):
             out.count("evaluations", 4)
@@ -337,6 +346,17 @@ def run_strings(unit):
             _viol(out, "pipeline", type(e).__name__, repo_site(e), "string constant file failed to parse/render", exc_summary(e), files)
             return out.result()
         out.count("states", len(strs) + 4)
+        # optimization mode carries the very same constant lines
+        try:
+            go_o = "\n".join(render_strings(proto, "go", optimization_mode=True).values())
+            c_o = "\n".join(v for k2, v in render_strings(proto, "c", optimization_mode=True).items() if k2.endswith(".h"))
+            std_go = [l for l in "\n".join(outs["go"].values()).split("\n") if l.startswith("const ") and not l.startswith("const BYTES_LENGTH")]
+            std_c = [l for l in "\n".join(v for k2, v in outs["c"].items() if k2.endswith(".h")).split("\n") if re.match(r"#define [SBT]\d+ ", l)]
+            missing = [l for l in std_go if l not in go_o.split("\n")][:3] + [l for l in std_c if l not in c_o.split("\n")][:3]
+            if missing:
+                _viol(out, "emit-opt", "constant_lines_missing_in_optimization_mode", "renderer -O", "lines of the standard output absent from -O: %r" % missing, "", files)
+        except Exception as e:
+            _viol(out, "pipeline", type(e).__name__, repo_site(e), "-O rendering of the string constant file failed", exc_summary(e), files)
         pytext = "\n".join(outs["py"].values())
         gotext = "\n".join(outs["go"].values())
         htext = "\n".join(v for k, v in outs["c"].items() if k.endswith(".h"))
